@@ -821,7 +821,7 @@ def replay_turn(case):
 
 
 SUBCHECKS = [
-    Sub("bfs", sub_bfs, quick={"max_states": 60000},
+    Sub("bfs", sub_bfs, quick={"max_states": 40000},
         thorough={"max_states": 2_000_000,
                   "extra": [((2, 3, 4), (1, 2, 3), (1, 5), (0, 2, 3, 11), 2_000_000),
                             ((5,), (1, 2), (0, 1, 5), (0, 1, 5, 7), 400_000),
